@@ -25,7 +25,19 @@ POOL = [
     (["H+", "E"], ["H"], 300.0, 1000.0, 100),
     (["H", "CR"], ["H+", "e-"], -1.0, -1.0, 101),
     (["CO"], ["C"], -1.0, -1.0, 102),
+    (["H+", "e-"], ["H"], 10.0, 1000.0, 100),          # lower bound of entry 3, upper bound of entry 4: equal to neither
+    (["e-", "H+"], ["H"], 10.0, 300.0, 100),           # equal to entry 3
 ]
+
+
+def pool_eq(a, b, ids):
+    """reaction equality as the property uses it (same reactants and products as multisets of species,
+    same temperature window, compatible type), from the pool entries -- independent of Reaction.__eq__"""
+    ra, pa, tmina, tmaxa, tya = POOL[a]
+    rb, pb, tminb, tmaxb, tyb = POOL[b]
+    return (sorted(ids[x] for x in ra if x in ids) == sorted(ids[x] for x in rb if x in ids)
+            and sorted(ids[x] for x in pa) == sorted(ids[x] for x in pb)
+            and tmina == tminb and tmaxa == tmaxb and (tya == tyb or 999 in (tya, tyb)))
 ALLOWED = [[], ["H", "H2"], ["H", "H2", "C", "CO"], ["H", "H+", "e-"], ["H", "H2", "C", "CO", "H+", "e-"]]
 REQUIRED = [[], ["CO"], ["H", "C"]]
 
@@ -54,12 +66,14 @@ class Run:
         self.net = Network(allowed_species=list(allowed), required_species=list(required))
         self.tags = {}
         self.objs = []
+        self.pool_of = []
 
     def new_rx(self, k):
         r, p, tmin, tmax, ty = POOL[k]
         o = Reaction(list(r), list(p), tmin, tmax, 1e-10, 0.0, 0.0, ReactionType(ty), idxfromfile=-1)
         self.tags[id(o)] = len(self.objs)
         self.objs.append(o)
+        self.pool_of.append(k)
         return o
 
     def key(self, o):
@@ -153,7 +167,8 @@ def check_history(res, model, ids, allowed, required, ops, tag):
     wire, observed = [], []
     live = set()
     for step, op in enumerate(ops):
-        before = {t for t, _ in run.observe()["rl"]} | set(run.observe()["skipped"])
+        before_rl = [t for t, _ in run.observe()["rl"]]
+        before = set(before_rl) | set(run.observe()["skipped"])
         try:
             w = apply_op(run, op)
         except Exception as e:
@@ -167,6 +182,18 @@ def check_history(res, model, ids, allowed, required, ops, tag):
         else:
             live = before
         bad = invariant_oracle(run, obs, live)
+        if not bad and op[0] in ("rminst", "rminsts", "rmdups"):
+            # no reaction is lost or kept contrary to the edit
+            after_rl = [t for t, _ in obs["rl"]]
+            if op[0] == "rmdups":
+                want = [t for i, t in enumerate(before_rl)
+                        if not any(pool_eq(run.pool_of[t], run.pool_of[u], ids) for u in before_rl[:i])]
+            else:
+                insts = [op[1]] if op[0] == "rminst" else list(op[1])
+                want = [t for t in before_rl if not any(pool_eq(run.pool_of[t], k, ids) for k in insts)]
+            if after_rl != want:
+                bad = (f"{op[0]} kept reactions {[POOL[run.pool_of[t]] for t in after_rl]} but exactly "
+                       f"{[POOL[run.pool_of[t]] for t in want]} differ from every removed one")
         res.count(f"op={op[0]}")
         if bad:
             res.violation("oracle", f"after step {step} ({op}): {bad}", case)
@@ -192,7 +219,7 @@ def check_history(res, model, ids, allowed, required, ops, tag):
              nontrivial=len(wire) >= 2)
 
 
-OPS_SMALL = ([("add", k) for k in (0, 1, 2, 3, 4)] + [("rmidx", 0), ("rmidxs", (0, 1)), ("rminst", 1), ("rminsts", (0, 3)),
+OPS_SMALL = ([("add", k) for k in (0, 1, 2, 3, 4, 7)] + [("rmidx", 0), ("rmidxs", (0, 1)), ("rminst", 1), ("rminst", 3), ("rminsts", (0, 3)),
              ("allowed", tuple(ALLOWED[1])), ("allowed", tuple(ALLOWED[2])), ("allowed", ()), ("required", ("CO",)), ("rmdups",), ("reindex",)])
 
 
@@ -268,8 +295,8 @@ def run(res, info):
     rng = random.Random(res.seed * 7919 + 14)
     model = fw.Model() if info["ok"] else None
     ids = ident_map()
-    res.rule = ("edit histories over a 7-reaction pool (equal-but-distinct instances, two electron spellings, windows) and 6 species: "
-                "exhaustive over a 15-operation alphabet up to length 3 (thorough: 4), random histories up to length 40 (thorough: 80) "
+    res.rule = ("edit histories over a 9-reaction pool (equal-but-distinct instances, two electron spellings, windows) and 6 species: "
+                "exhaustive over a 17-operation alphabet up to length 3 (thorough: 4), random histories up to length 40 (thorough: 80) "
                 "with all nine operation kinds, several initial allowed/required lists; `naunet extend` variants; "
                 "non-trivial = at least two effective operations")
     res.assumptions = ["remove_reaction(int) is called with 0 <= i < len (other integers raise or wrap in Python and are skipped)",
